@@ -74,8 +74,8 @@ theorem reset_sound {s : Sim} (hwf : s.WF) (hc : s.CodeOK) : s.reset.WF ∧ s.re
   ⟨(reset_wf hwf hc).1, rfl, rfl⟩
 
 /-- `api_refines` — THE theorem of C13. From any accepted configuration (core ≤ 2^32 cells,
-    limits ≤ core) and for EVERY sequence of AddWarrior / SpawnWarrior(any index, any offset
-    below 2^63) / RunCycle / Run / Reset calls: no call panics, Run always returns, and after the
+    limits ≤ core) and for EVERY sequence of AddWarrior / SpawnWarrior(any index, ANY 64-bit
+    offset) / RunCycle / Run / Reset calls: no call panics, Run always returns, and after the
     whole sequence the simulator is in the state the documented reference state machine `Spec.Api`
     reaches by the same calls (`Rel`: same core, cycle count, warrior states, queues of started
     warriors); calls the reference rejects (unknown index, already running warrior) leave the
@@ -90,14 +90,37 @@ theorem api_refines {c : Config} {s0 : Sim} {ops : List ApiOp} (hnew : Sim.new c
 
 /-- SpawnWarrior is accepted by the model exactly when the reference accepts it (then the states
     stay related: code loaded with wrap-around, fresh queue holding (offset + start) mod M, warrior
-    alive); a rejected call leaves the state unchanged -/
+    alive); a rejected call leaves the state unchanged. For EVERY 64-bit offset (the call reduces
+    it modulo the core size first); the core has at most 2^63 cells (`StartsOK`: start offsets
+    not negative, start offsets and code lengths below 2^63). -/
 theorem spawn_refines {s : Sim} {a : Spec.Api} {wi : Int} {off : UInt64} (hwf : s.WF) (hr : Rel s a)
-    (hd : DataRel s a) (hs : StartsOK s) (hoff : off.toNat < 2 ^ 63) :
+    (hd : DataRel s a) (hs : StartsOK s) (hm : s.m.toNat ≤ 2 ^ 63) :
     match s.spawn wi off, a.spawn wi off.toNat with
     | .ok (s', true), some a' => Rel s' a'
     | .ok (s', false), none => s' = s
     | _, _ => False :=
-  spawn_rel hwf hr hd hs hoff
+  spawn_rel hwf hr hd hs hm
+
+/-- `spawn_any_offset` — SpawnWarrior depends only on the offset modulo the core size: for EVERY
+    64-bit offset the call is the call at the reduced offset (same result, state and report; no
+    hypothesis), ... -/
+theorem spawn_any_offset (s : Sim) (wi : Int) (off : UInt64) :
+    s.spawn wi off = s.spawn wi (off % s.m) :=
+  Gmars.spawn_any_offset s wi off
+
+/-- ... and hence it is the reference's spawn at `off mod M` -/
+theorem spawn_any_offset_ref {s : Sim} {a : Spec.Api} {wi : Int} {off : UInt64} (hwf : s.WF)
+    (hr : Rel s a) (hd : DataRel s a) (hs : StartsOK s) (hm : s.m.toNat ≤ 2 ^ 63) :
+    match s.spawn wi off, a.spawn wi (off.toNat % a.M) with
+    | .ok (s', true), some a' => Rel s' a'
+    | .ok (s', false), none => s' = s
+    | _, _ => False :=
+  Gmars.spawn_any_offset_ref hwf hr hd hs hm
+
+/-- the reference's spawn depends only on the offset modulo the core size -/
+theorem ref_spawn_mod (a : Spec.Api) (wi : Int) (off : Nat) :
+    a.spawn wi (off % a.M) = a.spawn wi off :=
+  Spec.Api.spawn_mod a wi off
 
 /-- `reset_fresh` — after Reset the simulator is related to a FRESHLY created reference simulator
     to which the same warriors have been added (none spawned, zero cycles, empty core); only the
